@@ -36,6 +36,12 @@ func startSvcStub(ts *seam.TS) *svcStub {
 	must(c.WriteJSON(map[string]any{"Head": map[string]any{"Type": "RegisterAgent"}, "Body": map[string]any{"Agent": map[string]any{
 		"Name": "stub", "MagicValue": "0x41424344", "Author": "verif", "Description": "stub", "SupportedOS": []string{"linux"},
 		"Formats": []any{}, "Commands": []any{}, "BuildingConfig": map[string]any{}}}}) == nil, "service stub: register write")
+	// a second agent type whose magic value is spelled with upper-case hex digits (a service
+	// written by hand, not with Python's hex()): whatever the teamserver makes of the
+	// spelling, traffic carrying that value must end in a reply or the decoy 404
+	must(c.WriteJSON(map[string]any{"Head": map[string]any{"Type": "RegisterAgent"}, "Body": map[string]any{"Agent": map[string]any{
+		"Name": "stub-upper", "MagicValue": "0x4D59C0DE", "Author": "verif", "Description": "stub", "SupportedOS": []string{"linux"},
+		"Formats": []any{}, "Commands": []any{}, "BuildingConfig": map[string]any{}}}}) == nil, "service stub: register write (upper)")
 	go func() {
 		for {
 			var m map[string]map[string]any
@@ -49,7 +55,7 @@ func startSvcStub(ts *seam.TS) *svcStub {
 		}
 	}()
 	deadline := time.Now().Add(10 * time.Second)
-	for len(ts.T.Service.Agents) == 0 {
+	for len(ts.T.Service.Agents) < 2 {
 		must(time.Now().Before(deadline), "service stub: agent type was not registered")
 		time.Sleep(time.Millisecond)
 	}
